@@ -5,6 +5,7 @@ import CCVerif.Lemmas.EvalExamples7
 import CCVerif.Lemmas.EvalExamples8
 import CCVerif.Lemmas.EvalExamples7n
 import CCVerif.Lemmas.EvalNestedExamples
+import CCVerif.Lemmas.EvalBlocksPatExamples
 import CCVerif.Lemmas.EvalFuelTop
 import CCVerif.Lemmas.EvalFuelNorm
 import CCVerif.Lemmas.EvalFuelLoopsTop
@@ -956,5 +957,63 @@ example : (evaluate 30 Examples7.env7 Examples9.e9).1 = .okBool false := by deci
 example : (evaluate 30 Examples7.env7 Examples9.d9).1 =
     .ok (.s [.t [.t [.e 1, .e 1], .e 1], .t [.t [.e 1, .e 1], .e 2], .t [.t [.e 2, .e 2], .e 1], .t [.t [.e 2, .e 2], .e 2]]) := by
   decide
+
+/-! ## stage 10: tuple patterns in the blocks of `I{}`, in the variable position of `R{}`, inside enumerated declarations
+(the block machine / `ViRecursion` / the nested quantifiers run on ONE generated local per pattern)
+
+`Typed10 env e τ`: `e` goes by pattern elimination (`PE`, `Lemmas/EvalBlocksPatSound.lean`: every declaration - plain or a
+pattern of any depth, in `∀ ∃ D{}`, enumerated declarations, `R{}`, `:∈` / `:=` blocks of `I{}` - replaced by one plain
+variable, every leaf by its projection chain) to an expression `es` of stage 8 of type `τ` over plain variables, whose
+normal form is what the normaliser returns for `e` (a closed computation for a concrete expression).  The type of `e` is
+that of `es`.  What could fault in the C++: every `T().Component(i)` along a chain `pr_j(pr_i(@…))` read from the slot the
+block machine / the recursion assigned - the value in the slot has the type of the pattern (members of the typed domain,
+typed initial value and typed step), so every step of the chain finds a tuple with that component; `SlotGuard` /
+`outerValues` put the slot of the generated local back.  Not covered: filters / calls inside an expression with patterns. -/
+
+def Typed10 (env : Env) (e : Ast) (τ : ExprTy) : Prop :=
+  ∃ G es n f0, GlobalsOK env G ∧ FragF env G 6 [] [] es n τ ∧ PE (senvOf env) [] [] e es ∧
+    normalizeTree env.funcs f0 e = some n
+
+/-- **progress_preservation_partial10**: expressions with tuple patterns in `I{}` blocks / `R{}` / enumerated declarations:
+evaluating the normalised tree never faults, a value has the type of the expression, a truth value exactly for LOGIC,
+errors are documented ones. -/
+theorem progress_preservation_partial10 : progress_preservation_statement Typed10 := by
+  intro env e τ ⟨G, es, n, f0, hG, hf, hu, hn⟩ fuel
+  rcases evaluate_blocksPat hG hf hu hn fuel with hg | ho | ⟨eid, pos, he, hd⟩
+  · cases τ with
+    | ty ty =>
+      obtain ⟨v, hr, hw, _, _⟩ := hg
+      rw [hr]
+      exact ⟨ty, rfl, (hasTy_iff v ty).mp hw.1⟩
+    | logic =>
+      obtain ⟨b, hr, _⟩ := hg
+      rw [hr]; rfl
+  · rw [ho]; trivial
+  · rw [he]; exact hd
+
+/-- **never_stuck_partial10**: the possible outcomes on stage 10 -/
+theorem never_stuck_partial10 (env : Env) (e : Ast) (τ : ExprTy) (h : Typed10 env e τ) (fuel : Nat) :
+    (∃ v, (evaluate fuel env e).1 = .ok v) ∨ (∃ b, (evaluate fuel env e).1 = .okBool b) ∨
+    (evaluate fuel env e).1 = .outOfFuel ∨ (∃ eid pos, (evaluate fuel env e).1 = .err eid pos ∧ Documented eid) := by
+  obtain ⟨G, es, n, f0, hG, hf, hu, hn⟩ := h
+  rcases evaluate_blocksPat hG hf hu hn fuel with hg | ho | ⟨eid, pos, he, hd⟩
+  · cases τ with
+    | ty ty => obtain ⟨v, hr, _⟩ := hg; exact Or.inl ⟨v, hr⟩
+    | logic => obtain ⟨b, hr, _⟩ := hg; exact Or.inr (Or.inl ⟨b, hr⟩)
+  · exact Or.inr (Or.inr (Or.inl ho))
+  · exact Or.inr (Or.inr (Or.inr ⟨eid, pos, he, hd⟩))
+
+/-! non-vacuity (`Lemmas/EvalBlocksPatExamples.lean`), `X1 = {1,2}`: `I{(a,b) | (a,b):∈X1×X1; a=b}` has type `ℬ(X1×X1)` and
+evaluates to `{(1,1),(2,2)}`; `R{(a,b):=(0,0) | a<3 | (a+1,b+a)}` has type `Z×Z` and evaluates to `(3,3)`;
+`∀(a,b),c∈X1×X1 a=a` is LOGIC and evaluates to `true` -/
+example : Typed10 Examples7.env7 Examples10.i10 (.ty (.coll Examples10.XX)) :=
+  ⟨_, _, _, 10, Examples7.globalsOK_7, Examples10.i10s_frag.toF (Nat.le_refl _), Examples10.i10_pe, Examples10.i10_normalizes⟩
+example : Typed10 Examples7.env7 Examples10.r10 (.ty Examples10.ZZ) :=
+  ⟨_, _, _, 10, Examples7.globalsOK_7, Examples10.r10s_frag.toF (Nat.le_refl _), Examples10.r10_pe, Examples10.r10_normalizes⟩
+example : Typed10 Examples7.env7 Examples10.q10 .logic :=
+  ⟨_, _, _, 10, Examples7.globalsOK_7, Examples10.q10s_frag.toF (Nat.le_refl _), Examples10.q10_pe, Examples10.q10_normalizes⟩
+example : (evaluate 30 Examples7.env7 Examples10.i10).1 = .ok (.s [.t [.e 1, .e 1], .t [.e 2, .e 2]]) := by decide
+example : (evaluate 30 Examples7.env7 Examples10.r10).1 = .ok (.t [.e 3, .e 3]) := by decide
+example : (evaluate 30 Examples7.env7 Examples10.q10).1 = .okBool true := by decide
 
 end CCVerif.Eval
